@@ -180,3 +180,19 @@ package sniffing
 //@   at call Buffer).Bytes#1 assert a0 == s.buf && calls("Buffer).Write") == 1
 //@   at call Buffer).Bytes#1 assume-after result.$base == bbase() && result.$off == boff() && len(result) == blen()
 //@   at call builtin:append#1 assert a0 == s.data && a1[0].$base == bbase() && a1[0].$off == boff() + before() && len(a1[0]) == blen() - before()
+
+// C06 (the relay after sniffing gets every byte): every chunk a Read hands over is written on, also the final
+// chunk that arrives together with io.EOF or another error; the bytes written are the first nr bytes of the
+// buffer just read into.
+//@ func copyDirect
+//@   anchorsonly
+//@   nonilcheck
+//@   dyncalls noeffect
+//@   modifies *
+//@   ghostfn forwarded(k int) bool
+//@   at call Reader).Read#1 assert a1.$base == buf.$base && a1.$off == buf.$off && len(a1) == len(buf)
+//@   at call Writer).Write#1 assert a1.$base == buf.$base && a1.$off == buf.$off && len(a1) == nr && nr > 0
+//@   at call Writer).Write#1 assume-after forwarded(calls("Reader).Read"))
+//@   at return 3 assert nr <= 0 || forwarded(calls("Reader).Read"))
+//@   loop 1
+//@     back nr <= 0 || forwarded(calls("Reader).Read"))
